@@ -119,6 +119,49 @@ pub struct Trace {
     pub had_neg: bool,
     pub leaves: usize,
     pub depth: usize,
+    /// bound on |computed - exact| for an evaluator that keeps every intermediate result as a
+    /// 96-bit decimal with at most 28 decimals (each inexact step may be off by half a unit of the
+    /// 28th decimal or 1e-28 of the value; later factors magnify what earlier steps lost)
+    pub err: f64,
+}
+
+fn magnitude(v: &V) -> f64 {
+    let f = |q: &Q| (q.n as f64 / q.d as f64).abs();
+    match v {
+        V::Num(q) => f(q),
+        V::Com(m) => m.values().map(f).fold(0.0, f64::max),
+    }
+}
+
+fn smallest_nonzero(v: &V) -> f64 {
+    let f = |q: &Q| (q.n as f64 / q.d as f64).abs();
+    match v {
+        V::Num(q) => f(q),
+        V::Com(m) => m.values().filter(|q| !q.is_zero()).map(f).fold(f64::INFINITY, f64::min),
+    }
+}
+
+fn all_representable(v: &V) -> bool {
+    match v {
+        V::Num(q) => representable(*q),
+        V::Com(m) => m.values().all(|q| representable(*q)),
+    }
+}
+
+/// Error bound of `l op r` given the bounds of the operands and the exact operands / result.
+fn step_err(op: Op, l: &V, el: f64, r: &V, er: f64, out: &V) -> f64 {
+    let (a, b) = (magnitude(l), magnitude(r));
+    let propagated = match op {
+        Op::Add | Op::Sub => el + er,
+        Op::Mul => a * er + b * el + el * er,
+        Op::Div => {
+            let d = smallest_nonzero(r);
+            let x = magnitude(out);
+            if d - er > 0.0 { (el + x * er) / (d - er) } else { f64::INFINITY }
+        }
+    };
+    let rounding = if all_representable(out) { 0.0 } else { 5e-29f64.max(magnitude(out) * 1e-28) };
+    propagated + rounding
 }
 
 fn representable(q: Q) -> bool {
@@ -217,53 +260,55 @@ fn apply(op: Op, l: V, r: V) -> Verdict {
     }
 }
 
-fn combine(op: Op, l: Verdict, r: Verdict, tr: &mut Trace) -> Verdict {
+fn combine(op: Op, l: (Verdict, f64), r: (Verdict, f64), tr: &mut Trace) -> (Verdict, f64) {
     tr.ops.push(op);
     match (l, r) {
-        (Verdict::ModelOverflow, _) | (_, Verdict::ModelOverflow) => Verdict::ModelOverflow,
-        (Verdict::MustError(e), _) | (_, Verdict::MustError(e)) => Verdict::MustError(e),
-        (Verdict::Unspecified(e), _) | (_, Verdict::Unspecified(e)) => Verdict::Unspecified(e),
-        (Verdict::Value(a), Verdict::Value(b)) => {
-            let out = apply(op, a, b);
+        ((Verdict::ModelOverflow, _), _) | (_, (Verdict::ModelOverflow, _)) => (Verdict::ModelOverflow, 0.0),
+        ((Verdict::MustError(e), _), _) | (_, (Verdict::MustError(e), _)) => (Verdict::MustError(e), 0.0),
+        ((Verdict::Unspecified(e), _), _) | (_, (Verdict::Unspecified(e), _)) => (Verdict::Unspecified(e), 0.0),
+        ((Verdict::Value(a), ea), (Verdict::Value(b), eb)) => {
+            let out = apply(op, a.clone(), b.clone());
+            let mut err = 0.0;
             if let Verdict::Value(v) = &out {
                 note(v, tr);
+                err = step_err(op, &a, ea, &b, eb, v);
             }
-            out
+            (out, err)
         }
     }
 }
 
-fn eval_value(v: &Value, tr: &mut Trace, depth: usize) -> Verdict {
+fn eval_value(v: &Value, tr: &mut Trace, depth: usize) -> (Verdict, f64) {
     tr.depth = tr.depth.max(depth);
     match v {
         Value::Leaf(a) => {
             tr.leaves += 1;
             let q = a.num.q();
             if a.commodity.is_empty() {
-                Verdict::Value(V::Num(q))
+                (Verdict::Value(V::Num(q)), 0.0)
             } else {
                 let mut m = BTreeMap::new();
                 m.insert(a.commodity.clone(), q);
-                Verdict::Value(V::Com(m))
+                (Verdict::Value(V::Com(m)), 0.0)
             }
         }
-        Value::Paren(e) => eval_add(e, tr, depth + 1),
+        Value::Paren(e) => eval_add_err(e, tr, depth + 1),
     }
 }
 
-fn eval_unary(u: &Unary, tr: &mut Trace, depth: usize) -> Verdict {
-    let v = eval_value(&u.value, tr, depth);
+fn eval_unary(u: &Unary, tr: &mut Trace, depth: usize) -> (Verdict, f64) {
+    let (v, e) = eval_value(&u.value, tr, depth);
     if !u.neg {
-        return v;
+        return (v, e);
     }
     tr.had_neg = true;
     match v {
-        Verdict::Value(x) => Verdict::Value(negate(x)),
-        other => other,
+        Verdict::Value(x) => (Verdict::Value(negate(x)), e),
+        other => (other, e),
     }
 }
 
-fn eval_mul(m: &MulExpr, tr: &mut Trace, depth: usize) -> Verdict {
+fn eval_mul(m: &MulExpr, tr: &mut Trace, depth: usize) -> (Verdict, f64) {
     let mut acc = eval_unary(&m.first, tr, depth);
     for (op, u) in &m.rest {
         let r = eval_unary(u, tr, depth);
@@ -272,7 +317,7 @@ fn eval_mul(m: &MulExpr, tr: &mut Trace, depth: usize) -> Verdict {
     acc
 }
 
-pub fn eval_add(e: &AddExpr, tr: &mut Trace, depth: usize) -> Verdict {
+fn eval_add_err(e: &AddExpr, tr: &mut Trace, depth: usize) -> (Verdict, f64) {
     let mut acc = eval_mul(&e.first, tr, depth);
     for (op, m) in &e.rest {
         let r = eval_mul(m, tr, depth);
@@ -281,9 +326,16 @@ pub fn eval_add(e: &AddExpr, tr: &mut Trace, depth: usize) -> Verdict {
     acc
 }
 
+pub fn eval_add(e: &AddExpr, tr: &mut Trace, depth: usize) -> Verdict {
+    let (v, err) = eval_add_err(e, tr, depth);
+    tr.err = err;
+    v
+}
+
 pub fn eval(v: &Value) -> (Verdict, Trace) {
     let mut tr = Trace::default();
-    let out = eval_value(v, &mut tr, 0);
+    let (out, err) = eval_value(v, &mut tr, 0);
+    tr.err = err;
     (out, tr)
 }
 
